@@ -96,6 +96,12 @@ fn fmt_req(r: &Req) -> String {
     )
 }
 
+/// routed to the scripted backend (`fltk`: same, but the cluster's 502/503/504 templates are
+/// keep-alive, so the client connection - and the frontend session - survives a failure)
+fn is_flt(r: &Req) -> bool {
+    r.route == "flt" || r.route == "fltk"
+}
+
 fn plain(i: usize, route: &str) -> Req {
     Req {
         i,
@@ -110,10 +116,10 @@ fn plain(i: usize, route: &str) -> Req {
 }
 
 /// the full response the backend would send for this request, and the body
-fn full_response(r: &Req) -> (Vec<u8>, Vec<u8>, usize) {
+fn full_response(r: &Req, bconn: usize) -> (Vec<u8>, Vec<u8>, usize) {
     let body: Vec<u8> = if r.big { big_body() } else { BODY_SMALL.to_vec() };
     let mut head = Vec::new();
-    head.extend_from_slice(b"HTTP/1.1 200 OK\r\nX-Fault: yes\r\n");
+    head.extend_from_slice(format!("HTTP/1.1 200 OK\r\nX-Fault: yes\r\nX-Req: {}\r\nX-Bconn: {bconn}\r\n", r.i).as_bytes());
     if r.conn == "close" {
         head.extend_from_slice(b"Connection: close\r\n");
     }
@@ -145,11 +151,11 @@ fn full_response(r: &Req) -> (Vec<u8>, Vec<u8>, usize) {
 }
 
 /// bytes the backend really sends before its end action
-fn sent_prefix(r: &Req) -> Vec<u8> {
+fn sent_prefix(r: &Req, bconn: usize) -> Vec<u8> {
     if r.shape == "garbage" {
         return b"\x00\x01SSH-2.0-not-http\r\n\r\n\xff\xfe garbage".to_vec();
     }
-    let (full, _body, hl) = full_response(r);
+    let (full, _body, hl) = full_response(r, bconn);
     let n = match r.cut.as_str() {
         "accept1" | "acceptall" | "none" => 0,
         "status" => 9,          // "HTTP/1.1 "
@@ -179,6 +185,10 @@ struct FaultBackend {
     accept_close: Arc<AtomicUsize>,
     hits: Arc<Mutex<HashMap<usize, usize>>>,
     accepted: Arc<AtomicUsize>,
+    /// (request index, serial of the backend connection it was read on), in arrival order
+    served: Arc<Mutex<Vec<(usize, usize)>>>,
+    /// pause before the late answer of an `end=late` request
+    late_ms: Arc<AtomicUsize>,
     handle: Option<JoinHandle<()>>,
 }
 
@@ -191,13 +201,16 @@ impl FaultBackend {
         let accept_close = Arc::new(AtomicUsize::new(0));
         let hits = Arc::new(Mutex::new(HashMap::new()));
         let accepted = Arc::new(AtomicUsize::new(0));
+        let served = Arc::new(Mutex::new(vec![]));
+        let late_ms = Arc::new(AtomicUsize::new(150));
         let (s2, p2, a2, h2, c2) = (stop.clone(), plan.clone(), accept_close.clone(), hits.clone(), accepted.clone());
+        let (sv2, lm2) = (served.clone(), late_ms.clone());
         let handle = thread::spawn(move || {
             let mut conns = vec![];
             while !s2.load(Ordering::SeqCst) {
                 match be.accept(Duration::from_millis(20)) {
                     Ok(conn) => {
-                        c2.fetch_add(1, Ordering::SeqCst);
+                        let serial = c2.fetch_add(1, Ordering::SeqCst) + 1;
                         let left = a2.load(Ordering::SeqCst);
                         if left > 0 {
                             if left != usize::MAX {
@@ -206,8 +219,8 @@ impl FaultBackend {
                             conn.close();
                             continue;
                         }
-                        let (s3, p3, h3) = (s2.clone(), p2.clone(), h2.clone());
-                        conns.push(thread::spawn(move || serve_conn(conn, s3, p3, h3)));
+                        let (s3, p3, h3, sv3, lm3) = (s2.clone(), p2.clone(), h2.clone(), sv2.clone(), lm2.clone());
+                        conns.push(thread::spawn(move || serve_conn(conn, serial, s3, p3, h3, sv3, lm3)));
                     }
                     Err(_) => {}
                 }
@@ -216,7 +229,11 @@ impl FaultBackend {
                 let _ = c.join();
             }
         });
-        Ok(FaultBackend { addr, stop, plan, accept_close, hits, accepted, handle: Some(handle) })
+        Ok(FaultBackend { addr, stop, plan, accept_close, hits, accepted, served, late_ms, handle: Some(handle) })
+    }
+    /// serials of the backend connections request `i` was read on
+    fn conns_of(&self, i: usize) -> Vec<usize> {
+        self.served.lock().unwrap().iter().filter(|(r, _)| *r == i).map(|(_, c)| *c).collect()
     }
     fn hits(&self, i: usize) -> usize {
         *self.hits.lock().unwrap().get(&i).unwrap_or(&0)
@@ -231,9 +248,12 @@ impl FaultBackend {
 
 fn serve_conn(
     mut conn: RawConn,
+    serial: usize,
     stop: Arc<AtomicBool>,
     plan: Arc<Mutex<HashMap<usize, Req>>>,
     hits: Arc<Mutex<HashMap<usize, usize>>>,
+    served: Arc<Mutex<Vec<(usize, usize)>>>,
+    late_ms: Arc<AtomicUsize>,
 ) {
     let mut off = 0usize;
     loop {
@@ -257,7 +277,7 @@ fn serve_conn(
         let req = idx.and_then(|i| plan.lock().unwrap().get(&i).cloned());
         let Some(req) = req else {
             // bystander traffic: a small keep-alive 200
-            let r = format!("HTTP/1.1 200 OK\r\nContent-Length: {}\r\n\r\n", OK_BODY.len());
+            let r = format!("HTTP/1.1 200 OK\r\nX-Bconn: {serial}\r\nContent-Length: {}\r\n\r\n", OK_BODY.len());
             let mut v = r.into_bytes();
             v.extend_from_slice(OK_BODY);
             if conn.write_all(&v, Duration::from_secs(2)).is_err() {
@@ -266,12 +286,30 @@ fn serve_conn(
             continue;
         };
         *hits.lock().unwrap().entry(req.i).or_insert(0) += 1;
-        let bytes = sent_prefix(&req);
+        served.lock().unwrap().push((req.i, serial));
+        let bytes = sent_prefix(&req, serial);
         if !bytes.is_empty() && conn.write_all(&bytes, Duration::from_secs(5)).is_err() {
             return;
         }
         match req.end.as_str() {
             "keep" => continue,
+            "late" => {
+                // keep the socket open and answer this request (too) late, then go on serving
+                let until = Instant::now() + Duration::from_millis(late_ms.load(Ordering::SeqCst) as u64);
+                while Instant::now() < until {
+                    if stop.load(Ordering::SeqCst) {
+                        return;
+                    }
+                    thread::sleep(Duration::from_millis(10));
+                }
+                let mut ok = plain(req.i, "flt");
+                ok.i = req.i;
+                let (full, _, _) = full_response(&ok, serial);
+                if conn.write_all(&full, Duration::from_secs(2)).is_err() {
+                    return;
+                }
+                continue;
+            }
             "close" => {
                 conn.close();
                 return;
@@ -307,10 +345,14 @@ struct Obs {
     terminal_chunk: bool,
     conn_close_hdr: bool,
     sozu_id: bool,
+    x_req: Option<usize>,
+    x_bconn: Option<usize>,
     end: String, // open closed reset
     extra: usize,
     t_first: Option<Duration>,
     t_done: Duration,
+    /// when the check for extra bytes after a complete message ended
+    t_linger_end: Duration,
     malformed: Option<String>,
 }
 
@@ -356,6 +398,8 @@ fn observe(conn: &mut RawConn, t0: Instant, deadline: Duration, linger: Duration
                             "transfer-encoding" => chunked = v.to_ascii_lowercase().contains("chunked"),
                             "connection" => o.conn_close_hdr |= v.eq_ignore_ascii_case("close"),
                             "sozu-id" => o.sozu_id = true,
+                            "x-req" => o.x_req = v.parse().ok(),
+                            "x-bconn" => o.x_bconn = v.parse().ok(),
                             _ => {}
                         }
                     } else {
@@ -429,6 +473,7 @@ fn observe(conn: &mut RawConn, t0: Instant, deadline: Duration, linger: Duration
             ReadEnd::Reset => o.end = "reset".into(),
             _ => {}
         }
+        o.t_linger_end = t0.elapsed();
         o.extra = conn.received.len() - before.min(conn.received.len());
         if before > conn.parsed {
             o.extra += before - conn.parsed;
@@ -537,7 +582,7 @@ fn property_allows(r: &Req, first_on_conn: bool) -> Vec<&'static str> {
         "accept1" => vec!["default:502", "default:503", "relayed"],
         "acceptall" => vec!["default:502", "default:503"],
         "none" | "status" | "headers" => match r.end.as_str() {
-            "stall" => vec!["default:504"],
+            "stall" | "late" => vec!["default:504"],
             _ => vec!["default:502"],
         },
         "full" => {
@@ -567,7 +612,7 @@ fn property_allows(r: &Req, first_on_conn: bool) -> Vec<&'static str> {
 fn known_defect(r: &Req, kind: &str, o: &Obs) -> Option<&'static str> {
     let cut_partial = matches!(r.cut.as_str(), "hdrend" | "body" | "chunkline" | "beforelast");
     let ended = r.end == "close" || r.end == "reset";
-    if r.route != "flt" || r.client != "full" || !ended {
+    if !is_flt(r) || r.client != "full" || !ended {
         return None;
     }
     if r.shape == "cl" && r.conn == "close" && cut_partial
@@ -600,10 +645,10 @@ fn time_bound(r: &Req, s: &Setup, first_on_conn: bool) -> Duration {
     if r.client == "stallhead" {
         return sec(if first_on_conn { s.rt.max(s.ft) } else { s.ft }) + slack;
     }
-    if r.route != "flt" {
+    if !is_flt(r) {
         return slack;
     }
-    if r.end == "stall" && r.cut != "full" {
+    if (r.end == "stall" || r.end == "late") && r.cut != "full" && r.shape != "garbage" {
         return sec(s.bt) + sec(s.ft) + slack;
     }
     if r.end == "stall" && r.shape == "uc" {
@@ -617,7 +662,7 @@ fn time_bound(r: &Req, s: &Setup, first_on_conn: bool) -> Duration {
 }
 
 fn reuses_stalled_now(stalled: bool, r: &Req) -> bool {
-    stalled && r.route == "flt" && r.client == "full"
+    stalled && is_flt(r) && r.client == "full"
 }
 
 struct World {
@@ -641,6 +686,19 @@ fn build_world(s: &Setup) -> RigResult<World> {
     let ok = FaultBackend::start()?;
     let dead = dead_addr()?;
     w.add_http_route(front, "flt.test", "/", "flt", flt.addr, false)?;
+    // same scripted backend behind a cluster whose 502/503/504 answers are keep-alive: the
+    // client connection (and with it the frontend session and its backend connections)
+    // survives a failed exchange
+    let mut fk = cluster("fltk");
+    for (code, reason) in [("502", "Bad Gateway"), ("503", "Service Unavailable"), ("504", "Gateway Timeout")] {
+        fk.answers.insert(
+            code.to_string(),
+            format!("HTTP/1.1 {code} {reason}\r\nContent-Length: 7\r\nSozu-Id: %REQUEST_ID\r\n\r\ncustom!"),
+        );
+    }
+    w.add_cluster(fk)?;
+    w.add_http_frontend(front, "fltk.test", "/", "fltk")?;
+    w.add_backend("fltk", "fltk-0", flt.addr)?;
     w.add_http_route(front, "ok.test", "/", "okc", ok.addr, false)?;
     w.add_http_route(front, "ref.test", "/", "refc", dead.addr, false)?;
     // cluster without any backend
@@ -667,6 +725,7 @@ fn build_world(s: &Setup) -> RigResult<World> {
 fn host_of(route: &str) -> &'static str {
     match route {
         "flt" => "flt.test",
+        "fltk" => "fltk.test",
         "unknown" => "nowhere.test",
         "nobackend" => "nob.test",
         "deny" => "deny.test",
@@ -676,16 +735,27 @@ fn host_of(route: &str) -> &'static str {
     }
 }
 
-fn bystander(front: SocketAddr) -> Result<Duration, String> {
+/// Ok(Some(t)): served; Ok(None): inconclusive (sozu answered 504: the bystander's own
+/// scripted backend was not scheduled within the back timeout); Err: not served
+fn bystander_once(front: SocketAddr) -> Result<Option<Duration>, String> {
     let t0 = Instant::now();
     let mut c = RawConn::connect(front).map_err(|e| format!("connect: {e}"))?;
     c.write_all(b"GET /by HTTP/1.1\r\nHost: ok.test\r\n\r\n", Duration::from_secs(1))
         .map_err(|e| format!("write: {e}"))?;
     let o = observe(&mut c, t0, Duration::from_millis(3000), Duration::ZERO);
     if o.status == Some(200) && o.complete && o.body == OK_BODY {
-        Ok(t0.elapsed())
+        Ok(Some(t0.elapsed()))
+    } else if o.status == Some(504) {
+        Ok(None)
     } else {
         Err(format!("status {:?} complete {} after {:?}", o.status, o.complete, t0.elapsed()))
+    }
+}
+
+fn bystander(front: SocketAddr) -> Result<Option<Duration>, String> {
+    match bystander_once(front) {
+        Ok(Some(t)) => Ok(Some(t)),
+        _ => bystander_once(front),
     }
 }
 
@@ -791,6 +861,19 @@ impl Area for Faults {
         // backend closes between keep-alive requests
         v.push(ops_of(&s, &[f("cl", "ka", "full", "close"), plain(1, "flt"), plain(2, "flt")]));
         v.push(ops_of(&s, &[f("cl", "ka", "full", "keep"), f("cl", "ka", "full", "reset"), plain(2, "flt")]));
+        // a failed exchange on a session that survives it, then a follow-up to the same cluster:
+        // the backend keeps its socket open and answers the failed request late
+        let fk = |shape: &str, cut: &str, end: &str| {
+            let mut q = f(shape, "ka", cut, end);
+            q.route = "fltk".into();
+            q
+        };
+        for first in [fk("garbage", "full", "late"), fk("cl", "none", "late"), fk("cl", "none", "stall"),
+                      fk("cl", "status", "close"), fk("cl", "headers", "reset"), fk("garbage", "full", "stall")] {
+            let sk = Setup { ft: 3, bt: 1, ct: 1, rt: 3 };
+            v.push(ops_of(&sk, &[first.clone(), plain(1, "fltk"), plain(2, "fltk")]));
+            v.push(ops_of(&sk, &[plain(0, "fltk"), { let mut q = first.clone(); q.i = 1; q }, plain(2, "fltk")]));
+        }
         // client never finishes its request head (first request, then after a keep-alive one)
         let mut st = plain(0, "flt");
         st.client = "stallhead".into();
@@ -813,6 +896,39 @@ impl Area for Faults {
         v
     }
     fn gen(&self, rng: &mut Rng, thorough: bool) -> Vec<String> {
+        if rng.chance(12, 100) {
+            // failure on a surviving session, then follow-ups to the same cluster
+            let sk = Setup { ft: 3, bt: 1, ct: 1, rt: 3 };
+            let mut first = plain(0, "fltk");
+            match rng.below(6) {
+                0 | 1 => {
+                    first.shape = "garbage".into();
+                    first.end = rng.pick(&["late", "late", "stall", "close"]).to_string();
+                }
+                2 | 3 => {
+                    first.cut = rng.pick(&["none", "status", "headers"]).to_string();
+                    first.end = rng.pick(&["late", "stall"]).to_string();
+                    if first.end == "late" {
+                        first.cut = "none".into();
+                    }
+                }
+                _ => {
+                    first.cut = rng.pick(&["none", "status", "headers"]).to_string();
+                    first.end = rng.pick(&["close", "reset"]).to_string();
+                    first.shape = rng.pick(&["cl", "chunked"]).to_string();
+                }
+            }
+            let mut reqs = vec![];
+            if rng.chance(1, 2) {
+                reqs.push(plain(0, "fltk"));
+            }
+            first.i = reqs.len();
+            reqs.push(first);
+            for _ in 0..rng.range(1, 2) {
+                reqs.push(plain(reqs.len(), "fltk"));
+            }
+            return ops_of(&sk, &reqs);
+        }
         let s = Setup {
             ft: *rng.pick(&[1, 1, 1, 2]),
             bt: *rng.pick(&[1, 1, 1, 2]),
@@ -874,13 +990,15 @@ impl Area for Faults {
         let mut holders: Vec<RawConn> = vec![];
         // the session's keep-alive backend connection belongs to a peer that stopped reading
         let mut stalled_backend = false;
+        // backend connections (serials) that carried an exchange which did not end well
+        let mut failed_conns: Vec<(usize, String)> = vec![];
         for line in &ops[1..] {
             let Some(r) = parse_req(line) else {
                 run.out.push("bad-op".into());
                 continue;
             };
             run.tags.push(format!("route:{}", r.route));
-            if r.route == "flt" && r.client == "full" {
+            if is_flt(&r) && r.client == "full" {
                 run.tags.push(format!("fault:{}:{}:{}:{}", r.shape, r.conn, r.cut, r.end));
                 if r.big {
                     run.tags.push("big-body".into());
@@ -889,11 +1007,15 @@ impl Area for Faults {
             if r.client != "full" {
                 run.tags.push(format!("client:{}", r.client));
             }
-            if !(r.route == "flt" && r.client == "full" && r.cut == "full" && r.shape != "garbage") {
+            if !(is_flt(&r) && r.client == "full" && r.cut == "full" && r.shape != "garbage") {
                 run.nontrivial = true;
             }
             // arm the backend
             world.flt.plan.lock().unwrap().insert(r.i, r.clone());
+            world.flt.late_ms.store(
+                if r.shape == "garbage" { 150 } else { setup.bt as usize * 1000 + 300 },
+                Ordering::SeqCst,
+            );
             world.flt.accept_close.store(
                 match r.cut.as_str() {
                     "accept1" => 1,
@@ -918,6 +1040,7 @@ impl Area for Faults {
             let first_on_conn = conn.is_none();
             if conn.is_none() {
                 stalled_backend = false;
+                failed_conns.clear();
                 match RawConn::connect(front) {
                     Ok(c) => conn = Some(c),
                     Err(e) => {
@@ -936,7 +1059,7 @@ impl Area for Faults {
             };
             let t0 = Instant::now();
             let wrote = c.write_all(tosend, Duration::from_secs(1));
-            let bound = if stalled_backend && r.route == "flt" && r.client == "full" {
+            let bound = if stalled_backend && is_flt(&r) && r.client == "full" {
                 Duration::from_secs((setup.bt + setup.ft) as u64) + Duration::from_millis(2500)
             } else {
                 time_bound(&r, &setup, first_on_conn)
@@ -953,15 +1076,15 @@ impl Area for Faults {
             } else {
                 observe(c, t0, bound + Duration::from_millis(1000), Duration::from_millis(150))
             };
-            let (_full, body, _hl) = full_response(&r);
-            let expected_body: &[u8] = if r.route == "flt" { &body } else { OK_BODY };
+            let (_full, body, _hl) = full_response(&r, 0);
+            let expected_body: &[u8] = if is_flt(&r) { &body } else { OK_BODY };
             let tok = token(&o, expected_body);
             let kind = tok.split('/').next().unwrap_or("").to_string();
             // on an overloaded machine the scripted backend may not get to read the request
             // before sozu's back timer fires: sozu's 504 is then right and says nothing about
             // the scenario (counted; more than a handful per run is itself reported)
-            let backend_acts = r.route == "flt" && r.client == "full" && !r.cut.starts_with("accept");
-            if backend_acts && !reuses_stalled_now(stalled_backend, &r) && kind == "default:504" && world.flt.hits(r.i) == 0 {
+            let backend_acts = is_flt(&r) && r.client == "full" && !r.cut.starts_with("accept");
+            if backend_acts && !reuses_stalled_now(stalled_backend, &r) && failed_conns.is_empty() && kind == "default:504" && world.flt.hits(r.i) == 0 {
                 run.tags.push("inconclusive:backend-not-scheduled".into());
                 run.out.push("obs inconclusive".into());
                 if let Some(c) = conn.take() {
@@ -980,7 +1103,7 @@ impl Area for Faults {
             let by = by.unwrap_or_else(|| bystander(front));
             // ------------------------------------------------ property oracles --
             let what = format!("{} -> {tok} (framing {}, {} body bytes, end {}, {:?})", fmt_req(&r), o.framing, o.body.len(), o.end, o.t_done);
-            let reuses_stalled = stalled_backend && r.route == "flt" && r.client == "full";
+            let reuses_stalled = stalled_backend && is_flt(&r) && r.client == "full";
             let allowed = if reuses_stalled { vec!["default:504"] } else { property_allows(&r, first_on_conn) };
             let known = known_defect(&r, &kind, &o);
             let mut found: Vec<(String, String)> = vec![];
@@ -997,7 +1120,13 @@ impl Area for Faults {
             if let Some(m) = &o.malformed {
                 found.push(("malformed-answer".into(), format!("{m}; {what}")));
             }
-            if o.extra > 0 {
+            // (if this thread was descheduled for about a front timeout between the end of the
+            // answer and the end of the look-out for extra bytes, sozu's 408 for the idle
+            // connection is legitimate)
+            let idle_timeout_hit = o.t_linger_end.saturating_sub(o.t_done) + Duration::from_millis(300) >= Duration::from_secs(setup.ft.min(setup.rt) as u64);
+            if o.extra > 0 && idle_timeout_hit {
+                run.tags.push("inconclusive:harness-descheduled-idle-408".into());
+            } else if o.extra > 0 {
                 found.push(("more-than-one-answer".into(), format!("{} extra bytes after the complete answer; {what}", o.extra)));
             }
             // a proxy-generated answer: HTTP/1.1 status line, Sozu-Id, and either a length or
@@ -1019,9 +1148,57 @@ impl Area for Faults {
             if kind == "default:504" && o.t_done + Duration::from_millis(300) < Duration::from_secs(setup.bt.min(setup.ft) as u64) {
                 found.push(("timeout-answer-too-early".into(), what.clone()));
             }
+            // ---- a failure of one request must not leak into the next one ----
+            // (the scripted backend numbers its connections and tags every answer with the
+            // request it answers and the connection it is sent on)
+            let mut stale_after: Option<String> = None;
+            if is_flt(&r) && r.client == "full" {
+                let mine = world.flt.conns_of(r.i);
+                if let Some((c, why)) = failed_conns.iter().find(|(c, _)| mine.contains(c)) {
+                    stale_after = Some(why.clone());
+                    found.push((
+                        "stale-backend-connection-reused".into(),
+                        format!("backend connection #{c} had carried a failed exchange ({why}) and was handed to this request; {what}"),
+                    ));
+                } else if !failed_conns.is_empty() && mine.is_empty() && kind == "default:504" && !r.cut.starts_with("accept") {
+                    // the request was never read by the backend although the session has no
+                    // reason to wait: it was written to a connection whose peer still sits in
+                    // the failed exchange
+                    let (c, why) = failed_conns.last().cloned().unwrap();
+                    stale_after = Some(why.clone());
+                    found.push((
+                        "stale-backend-connection-reused".into(),
+                        format!("no backend connection ever delivered this request; the session's connection #{c} had carried a failed exchange ({why}); {what}"),
+                    ));
+                }
+                if o.status == Some(200) {
+                    if let Some(x) = o.x_req {
+                        if x != r.i {
+                            found.push((
+                                "previous-answer-delivered-to-next-request".into(),
+                                format!("the answer is the backend's answer to request {x} (backend connection {:?}); {what}", o.x_bconn),
+                            ));
+                        }
+                    }
+                }
+                if kind != "relayed" || stale_after.is_some() {
+                    let why = stale_after.clone().unwrap_or_else(|| kind.clone());
+                    failed_conns.extend(mine.into_iter().map(|c| (c, why.clone())));
+                }
+            }
+            // known defect of the unchanged code: after a back-timer 504 the connection is parked
+            let known = if stale_after.as_deref() == Some("default:504") {
+                Some("timed-out-backend-connection-parked-and-reused")
+            } else {
+                known
+            };
+            let leak = stale_after.is_some();
             for (class, detail) in found {
                 // the consequences of a known defect are reported under its fingerprint
-                let consequence = class.starts_with("truncated-presented-complete")
+                let consequence = (leak && (class == "stale-backend-connection-reused"
+                    || class == "previous-answer-delivered-to-next-request"
+                    || class.starts_with("status-mismatch")))
+                    || class.starts_with("truncated-presented-complete")
                     || class.starts_with("closed-without-answer")
                     || class == "more-than-one-answer"
                     || class == "malformed-answer"
@@ -1036,14 +1213,16 @@ impl Area for Faults {
             if let Some(k) = known {
                 run.tags.push(format!("known-defect:{k}"));
             }
-            if let Err(e) = by {
-                run.oracle.push((format!("bystander-not-served:{}:{}", r.cut, r.end), format!("{e}; during {}", fmt_req(&r))));
+            match by {
+                Ok(Some(_)) => {}
+                Ok(None) => run.tags.push("inconclusive:bystander-backend-not-scheduled".into()),
+                Err(e) => run.oracle.push((format!("bystander-not-served:{}:{}", r.cut, r.end), format!("{e}; during {}", fmt_req(&r)))),
             }
-            if kind == "relayed" && o.end == "open" && r.route == "flt" {
+            if kind == "relayed" && o.end == "open" && is_flt(&r) {
                 stalled_backend = r.end == "stall" && r.conn == "ka";
             }
             // the next request needs a usable connection
-            if o.end != "open" || !o.complete || o.conn_close_hdr && o.status != Some(200) {
+            if o.end != "open" || !o.complete || o.extra > 0 || o.conn_close_hdr && o.status != Some(200) {
                 if let Some(c) = conn.take() {
                     c.close();
                 }
